@@ -384,10 +384,15 @@ def build_circuit(case):
             code, q = op["g"], op["q"]
             nc = NCTRL[code]
             kw = {}
-            if op["cc"] is not None:
+            if op["cc"] is not None and not case.get("assign"):
                 kw["classical_controls"] = list(op["cc"])
                 kw["classical_control_value"] = op["ccv"]
             qc.add_gate(GATE_NAMES[code], targets=list(q[nc:]), controls=(list(q[:nc]) if nc else None), **kw)
+            if op["cc"] is not None and case.get("assign"):
+                # the condition is ASSIGNED on the gate object after add_gate (as circuit/_decompose.py and user code
+                # do): the simulator reads the gate's attributes when it executes the gate
+                qc.gates[-1].classical_controls = list(op["cc"])
+                qc.gates[-1].classical_control_value = op["ccv"]
         else:
             qc.add_measurement("M", targets=[op["m"]], classical_store=op["store"])
     return qc
@@ -399,17 +404,21 @@ def versions_of(case):
 
 def apply_edit(qc, cur_ops, new_ops, how):
     """edit the circuit object IN PLACE so that it reads `new_ops` (same number of operations): `assign` re-assigns
-    targets / controls of the gate object where the gate keeps its name, otherwise (and with `replace`) the operation
+    targets / controls / classical_controls / classical_control_value of the gate object where the gate keeps its
+    name, otherwise (and with `replace`) the operation
     is removed and a new one added at the same position through the public API"""
     for i, (a, b) in enumerate(zip(cur_ops, new_ops)):
         if a == b:
             continue
-        if how == "assign" and "g" in a and "g" in b and a["g"] == b["g"] and a["cc"] == b["cc"] and a["ccv"] == b["ccv"]:
+        if how == "assign" and "g" in a and "g" in b and a["g"] == b["g"]:
             nc = NCTRL[b["g"]]
             g = qc.gates[i]
             g.targets = list(b["q"][nc:])
             if nc:
                 g.controls = list(b["q"][:nc])
+            if (a["cc"], a["ccv"]) != (b["cc"], b["ccv"]):
+                g.classical_controls = None if b["cc"] is None else list(b["cc"])
+                g.classical_control_value = b["ccv"] if b["cc"] is not None else None
             continue
         qc.remove_gate_or_measurement(index=i)
         if "g" in b:
